@@ -37,7 +37,7 @@ ASSUMPTIONS = [
     'taxonomy and int/float columns convert on every row',
 ]
 ANCHORS = ['Table.add_metadata', 'Table.del_metadata', 'Table._cast_metadata', 'MetadataMap.from_file', '_add_metadata']
-REQUIRED = ['mapfile_quotes_kept', 'other_tables_rechecked', 'built_with_one_entry_object',
+REQUIRED = ['mapfile_empty_list_levels', 'mapfile_quotes_kept', 'other_tables_rechecked', 'built_with_one_entry_object',
             'built_from_other_tables_metadata', 'add_metadata_calls', 'add_on_axis_without_metadata',
             'add_partial_overlap', 'add_overwrite_existing_key',
             'del_metadata_calls', 'del_on_jagged_metadata', 'del_keys_none',
@@ -339,6 +339,12 @@ def gen_mapfile(r, ids, hdf5_safe=False, full_cover=False):
             elif k == 'sc':
                 v = r.choice(['k__A; p__B', 'k__A;p__B;c__C', 'k__X',
                               ' k__A ;p__B '.strip()])
+                if not hdf5_safe and r.random() < .3:
+                    # levels left empty are levels too (HDF5 cannot hold
+                    # them: only where the output is not HDF5)
+                    v = r.choice(['k__A; p__B;', 'k__A;;c__C', ';p__B',
+                                  'k__A; ;', 'k__A;;'])
+                    feats.add('empty-levels')
             else:
                 v = r.choice(['a;b|c;d', 'a; b', 'x|y|z'])
             vals.append(v)
@@ -418,6 +424,8 @@ def run_mapfile(ctx, r, index):
         ctx.count('mapfile_negative_int')
     if 'short' in feats:
         ctx.count('mapfile_short_rows')
+    if 'empty-levels' in feats:
+        ctx.count('mapfile_empty_list_levels')
     g = {k: snap.canon_value(dict(v)) for k, v in dict(got).items()}
     if set(g) != set(exp) or any(not snap.md_equal([g[k]], [exp[k]])
                                  for k in exp):
